@@ -190,5 +190,6 @@ pub fn def() -> PropDef {
         assumptions: &["pinned per-language inventories: harness/src/tables.rs"],
         spaces: vec![Space { name: "world", decode, plan: |t| Plan::Random(t.n(200_000, 3_000_000)) }],
         differential: false,
+        floors: &[("variant_searches", 4.0)],
     }
 }
